@@ -129,48 +129,31 @@ func zeroKeyMaps(a, b *valpool.Term) bool {
 	return false
 }
 
-func without(fs []string, f string) []string {
-	var out []string
-	for _, x := range fs {
-		if x != f {
-			out = append(out, x)
-		}
-	}
-	return out
-}
-
 func (s *session) classify() error {
 	c := s.c
 	if len(s.rej) == 0 && len(s.lawRej) == 0 {
 		return nil
 	}
 	keys := make([][]string, len(s.rej))      // known classes the rejection is attributed to
-	remaining := make([][]string, len(s.rej)) // fields still to be explained
+	remaining := make([][]string, len(s.rej)) // fields still to be attributed
 	infos := make([]explainInfo, len(s.rej))
 	var cases []tcase
 	var caseOf []int
+	// 1. structural: maps with the keys 0.0 / -0.0 (C08's defect seen through eq)
+	// 2. explain: which of the disagreeing relations are exactly what the specification prescribes
+	//    for the float images (decided by TLC on the rewritten pair)
 	for i, r := range s.rej {
 		rem := append([]string(nil), r.fields...)
 		if zeroKeyMaps(r.a, r.b) {
 			keys[i] = append(keys[i], keyZeroKey)
 			rem = nil
 		}
-		if len(rem) > 0 && sliceMismatch(r.va, r.vb) {
-			if n := without(rem, "tot"); len(n) < len(rem) {
-				keys[i] = append(keys[i], keySlice)
-				rem = n
-			}
-		}
 		remaining[i] = rem
 		if len(rem) == 0 {
 			continue
 		}
 		a2, b2 := explainRewrite(r.a, r.b, &infos[i])
-		eqWrong := false
-		for _, f := range rem {
-			eqWrong = eqWrong || f == "eq" // eq never converts: a wrong eq is not of this class
-		}
-		if !infos[i].replaced || eqWrong {
+		if !infos[i].replaced {
 			continue
 		}
 		var atoms []*valpool.NumAtom
@@ -182,47 +165,59 @@ func (s *session) classify() error {
 		cases = append(cases, tcase{Vals: []*valpool.Term{a2, b2}, Obs: r.obs, To: s.to, Via: r.via, Numrel: r.via == "elvish"})
 		caseOf = append(caseOf, i)
 	}
-	explained := make([]bool, len(s.rej))
-	for _, i := range caseOf {
-		explained[i] = true
-	}
 	if len(cases) > 0 {
 		bad, err := lib.Judge(c, "JudgeTriples(explain)", s.dir, "JudgeTriples", cases, c.Pick(2, 4), 10*time.Minute)
 		if err != nil {
 			return err
 		}
+		still := map[int]map[string]bool{}
 		for _, bc := range bad {
 			i := caseOf[bc.Index]
+			still[i] = map[string]bool{}
 			_, pairs := failures(bc.Info)
 			for _, p := range pairs {
-				for _, f := range remaining[i] {
-					if p.i == 0 && p.j == 1 && p.what == "agree-"+f {
-						explained[i] = false
-					}
+				if p.i == 0 && p.j == 1 {
+					still[i][strings.TrimPrefix(p.what, "agree-")] = true
 				}
 			}
+		}
+		for _, i := range caseOf {
+			var rem []string
+			explainedSome := false
+			for _, f := range remaining[i] {
+				// eq never converts: a wrong eq is not of this class
+				if f == "eq" || still[i][f] {
+					rem = append(rem, f)
+				} else {
+					explainedSome = true
+				}
+			}
+			if explainedSome {
+				if infos[i].infImage {
+					keys[i] = append(keys[i], keyInfImage)
+				} else {
+					keys[i] = append(keys[i], keyCoincide)
+				}
+			}
+			remaining[i] = rem
 		}
 	}
 	counts := map[string]int{}
 	other := 0
 	for i, r := range s.rej {
-		ks := keys[i]
+		// 3. structural: only compare &total is left and the real values are a list and a list slice
+		if len(remaining[i]) == 1 && remaining[i][0] == "tot" && sliceMismatch(r.va, r.vb) {
+			keys[i] = append(keys[i], keySlice)
+			remaining[i] = nil
+		}
 		if len(remaining[i]) > 0 {
-			switch {
-			case explained[i] && infos[i].infImage:
-				ks = append(ks, keyInfImage)
-			case explained[i]:
-				ks = append(ks, keyCoincide)
-			default:
-				ks = append(ks, fmt.Sprintf("%s:%s:%s~%s", r.via, strings.Join(remaining[i], "+"), r.a.Name(), r.b.Name()))
-				counts["other"]++
-				if other++; other <= 25 {
-					c.Logf("rejected, not of a known class: %s", r.what)
-				}
+			keys[i] = append(keys[i], fmt.Sprintf("%s:%s:%s~%s", r.via, strings.Join(remaining[i], "+"), r.a.Name(), r.b.Name()))
+			counts["other"]++
+			if other++; other <= 25 {
+				c.Logf("rejected, not of a known class: %s", r.what)
 			}
 		}
-		keys[i] = ks
-		for _, k := range ks {
+		for _, k := range keys[i] {
 			if strings.HasPrefix(k, "cmp:") || k == keySlice || k == keyZeroKey {
 				counts[k]++
 			}
